@@ -25,3 +25,32 @@ pub mod std_net_paths { }
 pub fn resolve_host_with_cache(host: &String, port: u16) -> (r: Result<SocketAddr>)
     ensures r is Ok ==> (match r->Ok_0 { SocketAddr::V4(a) => a.port == port, SocketAddr::V6(a) => a.port == port })
 { unimplemented!() }
+
+// ---- the UDP socket and the stream's sending side for the server's UDP -> Stream loop ----
+// incoming: PROPHECY of the datagrams the socket will deliver before it fails; recv_from truncates to the buffer (OS semantics)
+pub struct UdpLog { pub ghost incoming: Seq<Seq<u8>>, pub ghost sent: Seq<u8>, pub ghost n_sent: nat }
+pub struct PeerAddr;
+pub struct UdpSocket { pub _p: () }
+impl UdpSocket {
+    #[verifier::external_body]
+    pub fn recv_from(&self, buf: &mut [u8], fx: &mut Ghost<UdpLog>) -> (r: io::Result<(usize, PeerAddr)>)
+        ensures final(buf)@.len() == old(buf)@.len(), final(fx)@.sent == old(fx)@.sent, final(fx)@.n_sent == old(fx)@.n_sent,
+            old(fx)@.incoming.len() == 0 ==> r is Err && final(fx)@.incoming == old(fx)@.incoming,
+            old(fx)@.incoming.len() > 0 ==> r is Ok && final(fx)@.incoming == old(fx)@.incoming.drop_first()
+                && r->Ok_0.0 == (if old(fx)@.incoming[0].len() <= old(buf)@.len() { old(fx)@.incoming[0].len() } else { old(buf)@.len() })
+                && final(buf)@.subrange(0, r->Ok_0.0 as int) == old(fx)@.incoming[0].subrange(0, r->Ok_0.0 as int),
+    { unimplemented!() }
+}
+pub struct SendErr;
+pub struct Stream { pub id: u32 }
+impl Stream {
+    pub fn id(&self) -> (r: u32) ensures r == self.id { self.id }
+    #[verifier::external_body]
+    pub fn send_data(&self, data: Bytes, fx: &mut Ghost<UdpLog>) -> (r: std::result::Result<(), SendErr>)
+        ensures final(fx)@.incoming == old(fx)@.incoming,
+            r is Ok ==> final(fx)@.sent == old(fx)@.sent + data@ && final(fx)@.n_sent == old(fx)@.n_sent + 1,
+            r is Err ==> final(fx)@.sent == old(fx)@.sent && final(fx)@.n_sent == old(fx)@.n_sent
+    { unimplemented!() }
+}
+pub struct AtomicU64 { pub v: u64 }
+pub use std::sync::Arc;
